@@ -385,7 +385,7 @@ static PyObject* getrf(PyObject *self, PyObject *args, PyObject *kwrds)
     if (ldA == 0) ldA = MAX(1,A->nrows);
     if (ldA < MAX(1,m)) err_ld("ldA");
     if (oA < 0) err_nn_int("offsetA");
-    if (oA + (n-1)*ldA + m > len(A)) err_buf_len("A");
+    if ((int_t)oA + (n-1)*(int_t)ldA + m > len(A)) err_buf_len("A");
     if (len(ipiv) < MIN(n,m)) err_buf_len("ipiv");
 
 #if (SIZEOF_INT < SIZEOF_SIZE_T)
@@ -496,9 +496,9 @@ static PyObject* getrs(PyObject *self, PyObject *args, PyObject *kwrds)
     if (ldB == 0) ldB = MAX(1,B->nrows);
     if (ldB < MAX(1, n)) err_ld("ldB");
     if (oA < 0) err_nn_int("offsetA");
-    if (oA + (n-1)*ldA + n > len(A)) err_buf_len("A");
+    if ((int_t)oA + (n-1)*(int_t)ldA + n > len(A)) err_buf_len("A");
     if (oB < 0) err_nn_int("offsetB");
-    if (oB + (nrhs-1)*ldB + n > len(B)) err_buf_len("B");
+    if ((int_t)oB + (nrhs-1)*(int_t)ldB + n > len(B)) err_buf_len("B");
     if (len(ipiv) < n) err_buf_len("ipiv");
 
 #if (SIZEOF_INT < SIZEOF_SIZE_T)
@@ -580,7 +580,7 @@ static PyObject* getri(PyObject *self, PyObject *args, PyObject *kwrds)
     if (ldA == 0) ldA = MAX(1,A->nrows);
     if (ldA < MAX(1,n)) err_ld("ldA");
     if (oA < 0) err_nn_int("offsetA");
-    if (oA + (n-1)*ldA + n > len(A)) err_buf_len("A");
+    if ((int_t)oA + (n-1)*(int_t)ldA + n > len(A)) err_buf_len("A");
     if (len(ipiv) < n) err_buf_len("ipiv");
 
 #if (SIZEOF_INT < SIZEOF_SIZE_T)
@@ -703,9 +703,9 @@ static PyObject* gesv(PyObject *self, PyObject *args, PyObject *kwrds)
     if (ldB == 0) ldB = MAX(1,B->nrows);
     if (ldB < MAX(1, n)) err_ld("ldB");
     if (oA < 0) err_nn_int("offsetA");
-    if (oA + (n-1)*ldA + n > len(A)) err_buf_len("A");
+    if ((int_t)oA + (n-1)*(int_t)ldA + n > len(A)) err_buf_len("A");
     if (oB < 0) err_nn_int("offsetB");
-    if (oB + (nrhs-1)*ldB + n > len(B)) err_buf_len("B");
+    if ((int_t)oB + (nrhs-1)*(int_t)ldB + n > len(B)) err_buf_len("B");
     if (ipiv && len(ipiv) < n) err_buf_len("ipiv");
 
     if (ipiv) {
@@ -732,7 +732,7 @@ static PyObject* gesv(PyObject *self, PyObject *args, PyObject *kwrds)
                     return PyErr_NoMemory();
                 }
                 for (k=0; k<n; k++) memcpy((double *) Ac + k*n,
-                    MAT_BUFD(A)+oA+k*ldA, n*sizeof(double));
+                    MAT_BUFD(A)+oA+k*(int_t)ldA, n*sizeof(double));
                 Py_BEGIN_ALLOW_THREADS
                 dgesv_(&n, &nrhs, (double *) Ac, &n, ipivc,
                     MAT_BUFD(B)+oB, &ldB, &info);
@@ -753,7 +753,7 @@ static PyObject* gesv(PyObject *self, PyObject *args, PyObject *kwrds)
                     return PyErr_NoMemory();
                 }
                 for (k=0; k<n; k++) memcpy((complex_t *) Ac + k*n,
-                    MAT_BUFZ(A)+oA+k*ldA, n*sizeof(complex_t));
+                    MAT_BUFZ(A)+oA+k*(int_t)ldA, n*sizeof(complex_t));
                 Py_BEGIN_ALLOW_THREADS
                 zgesv_(&n, &nrhs, (complex_t *) Ac, &n, ipivc,
                     MAT_BUFZ(B)+oB, &ldB, &info);
@@ -828,7 +828,7 @@ static PyObject* gbtrf(PyObject *self, PyObject *args, PyObject *kwrds)
     if (ldA == 0) ldA = MAX(1,A->nrows);
     if (ldA < 2*kl + ku + 1) err_ld("ldA");
     if (oA < 0) err_nn_int("offsetA");
-    if (oA + (n-1)*ldA + 2*kl + ku + 1 > len(A)) err_buf_len("A");
+    if ((int_t)oA + (n-1)*(int_t)ldA + 2*kl + ku + 1 > len(A)) err_buf_len("A");
     if (!Matrix_Check(ipiv) || ipiv ->id != INT) err_int_mtrx("ipiv");
     if (len(ipiv) < MIN(n,m)) err_buf_len("ipiv");
 
@@ -945,9 +945,9 @@ static PyObject* gbtrs(PyObject *self, PyObject *args, PyObject *kwrds)
     if (ldB == 0) ldB = MAX(1,B->nrows);
     if (ldB < MAX(1, n)) err_ld("ldB");
     if (oA < 0) err_nn_int("offsetA");
-    if (oA + (n-1)*ldA + 2*kl + ku + 1 > len(A)) err_buf_len("A");
+    if ((int_t)oA + (n-1)*(int_t)ldA + 2*kl + ku + 1 > len(A)) err_buf_len("A");
     if (oB < 0) err_nn_int("offsetB");
-    if (oB + (nrhs-1)*ldB + n > len(B)) err_buf_len("B");
+    if ((int_t)oB + (nrhs-1)*(int_t)ldB + n > len(B)) err_buf_len("B");
     if (len(ipiv) < n) err_buf_len("ipiv");
 
 #if (SIZEOF_INT < SIZEOF_SIZE_T)
@@ -1055,10 +1055,10 @@ static PyObject* gbsv(PyObject *self, PyObject *args, PyObject *kwrds)
     if (ldB == 0) ldB = MAX(1,B->nrows);
     if (ldB < MAX(1,n)) err_ld("ldB");
     if (oA < 0) err_nn_int("offsetA");
-    if (oA + (n-1)*ldA + (ipiv ? 2*kl+ku+1 : kl+ku+1) > len(A))
+    if ((int_t)oA + (n-1)*(int_t)ldA + (ipiv ? 2*kl+ku+1 : kl+ku+1) > len(A))
         err_buf_len("A");
     if (oB < 0) err_nn_int("offsetB");
-    if (oB + (nrhs-1)*ldB + n > len(B)) err_buf_len("B");
+    if ((int_t)oB + (nrhs-1)*(int_t)ldB + n > len(B)) err_buf_len("B");
     if (ipiv && len(ipiv) < n) err_buf_len("ipiv");
 
     if (ipiv) {
@@ -1087,7 +1087,7 @@ static PyObject* gbsv(PyObject *self, PyObject *args, PyObject *kwrds)
                 }
                 for (k=0; k<n; k++)
                     memcpy((double *) Ac + kl + k*(2*kl+ku+1),
-                        MAT_BUFD(A) + oA + k*ldA,
+                        MAT_BUFD(A) + oA + k*(int_t)ldA,
                         (kl+ku+1)*sizeof(double));
                 ldA = 2*kl+ku+1;
                 Py_BEGIN_ALLOW_THREADS
@@ -1112,7 +1112,7 @@ static PyObject* gbsv(PyObject *self, PyObject *args, PyObject *kwrds)
                 }
                 for (k=0; k<n; k++)
                     memcpy((complex_t *) Ac + kl + k*(2*kl+ku+1),
-                        MAT_BUFZ(A) + oA + k*ldA,
+                        MAT_BUFZ(A) + oA + k*(int_t)ldA,
                         (kl+ku+1)*sizeof(complex_t));
                 ldA = 2*kl+ku+1;
                 Py_BEGIN_ALLOW_THREADS
@@ -1192,10 +1192,10 @@ static PyObject* gttrf(PyObject *self, PyObject *args, PyObject *kwrds)
     if (n < 0) err_buf_len("d");
     if (n == 0) return Py_BuildValue("");
     if (odl < 0) err_nn_int("offsetdl");
-    if (odl + n - 1  > len(dl)) err_buf_len("dl");
-    if (od + n > len(d)) err_buf_len("d");
+    if ((int_t)odl + n - 1  > len(dl)) err_buf_len("dl");
+    if ((int_t)od + n > len(d)) err_buf_len("d");
     if (odu < 0) err_nn_int("offsetdu");
-    if (odu + n - 1  > len(du)) err_buf_len("du");
+    if ((int_t)odu + n - 1  > len(du)) err_buf_len("du");
     if (n - 2  > len(du2)) err_buf_len("du2");
     if (len(ipiv) < n) err_buf_len("ipiv");
     if (n > len(ipiv)) err_buf_len("ipiv");
@@ -1313,13 +1313,13 @@ static PyObject* gttrs(PyObject *self, PyObject *args, PyObject *kwrds)
     if (ldB == 0) ldB = MAX(1,B->nrows);
     if (ldB < MAX(1, n)) err_ld("ldB");
     if (odl < 0) err_nn_int("offsetdl");
-    if (odl + n - 1  > len(dl)) err_buf_len("dl");
-    if (od + n > len(d)) err_buf_len("d");
+    if ((int_t)odl + n - 1  > len(dl)) err_buf_len("dl");
+    if ((int_t)od + n > len(d)) err_buf_len("d");
     if (odu < 0) err_nn_int("offsetdu");
-    if (odu + n - 1  > len(du)) err_buf_len("du");
+    if ((int_t)odu + n - 1  > len(du)) err_buf_len("du");
     if (n - 2  > len(du2)) err_buf_len("du2");
     if (oB < 0) err_nn_int("offsetB");
-    if (oB + (nrhs-1)*ldB + n > len(B)) err_buf_len("B");
+    if ((int_t)oB + (nrhs-1)*(int_t)ldB + n > len(B)) err_buf_len("B");
     if (n > len(ipiv)) err_buf_len("ipiv");
 
 #if (SIZEOF_INT < SIZEOF_SIZE_T)
@@ -1415,14 +1415,14 @@ static PyObject* gtsv(PyObject *self, PyObject *args, PyObject *kwrds)
     if (nrhs < 0) nrhs = B->ncols;
     if (n == 0 || nrhs == 0) return Py_BuildValue("");
     if (odl < 0) err_nn_int("offsetdl");
-    if (odl + n - 1  > len(dl)) err_buf_len("dl");
-    if (od + n > len(d)) err_buf_len("d");
+    if ((int_t)odl + n - 1  > len(dl)) err_buf_len("dl");
+    if ((int_t)od + n > len(d)) err_buf_len("d");
     if (odu < 0) err_nn_int("offsetdu");
-    if (odu + n - 1  > len(du)) err_buf_len("du");
+    if ((int_t)odu + n - 1  > len(du)) err_buf_len("du");
     if (oB < 0) err_nn_int("offsetB");
     if (ldB == 0) ldB = MAX(1,B->nrows);
     if (ldB < MAX(1, n)) err_ld("ldB");
-    if (oB + (nrhs-1)*ldB + n > len(B)) err_buf_len("B");
+    if ((int_t)oB + (nrhs-1)*(int_t)ldB + n > len(B)) err_buf_len("B");
 
     switch (MAT_ID(dl)){
         case DOUBLE:
@@ -1500,7 +1500,7 @@ static PyObject* potrf(PyObject *self, PyObject *args, PyObject *kwrds)
     if (ldA == 0) ldA = MAX(1, A->nrows);
     if (ldA < MAX(1,n)) err_ld("ldA");
     if (oA < 0) err_nn_int("offsetA");
-    if (oA + (n-1)*ldA + n > len(A)) err_buf_len("A");
+    if ((int_t)oA + (n-1)*(int_t)ldA + n > len(A)) err_buf_len("A");
 
     switch (MAT_ID(A)){
         case DOUBLE:
@@ -1582,9 +1582,9 @@ static PyObject* potrs(PyObject *self, PyObject *args, PyObject *kwrds)
     if (ldB == 0) ldB = MAX(1,B->nrows);
     if (ldB < MAX(1,n)) err_ld("ldB");
     if (oA < 0) err_nn_int("offsetA");
-    if (oA + (n-1)*ldA + n > len(A)) err_buf_len("A");
+    if ((int_t)oA + (n-1)*(int_t)ldA + n > len(A)) err_buf_len("A");
     if (oB < 0) err_nn_int("offsetB");
-    if (oB + (nrhs-1)*ldB + n > len(B)) err_buf_len("B");
+    if ((int_t)oB + (nrhs-1)*(int_t)ldB + n > len(B)) err_buf_len("B");
 
     switch (MAT_ID(A)){
         case DOUBLE:
@@ -1653,7 +1653,7 @@ static PyObject* potri(PyObject *self, PyObject *args, PyObject *kwrds)
     if (ldA == 0) ldA = MAX(1,A->nrows);
     if (ldA < MAX(1,n)) err_ld("ldA");
     if (oA < 0) err_nn_int("offsetA");
-    if (oA + (n-1)*ldA + n > len(A)) err_buf_len("A");
+    if ((int_t)oA + (n-1)*(int_t)ldA + n > len(A)) err_buf_len("A");
 
     switch (MAT_ID(A)){
         case DOUBLE:
@@ -1737,9 +1737,9 @@ static PyObject* posv(PyObject *self, PyObject *args, PyObject *kwrds)
     if (ldB == 0) ldB = MAX(1,B->nrows);
     if (ldB < MAX(1, n)) err_ld("ldB");
     if (oA < 0) err_nn_int("offsetA");
-    if (oA + (n-1)*ldA + n > len(A)) err_buf_len("A");
+    if ((int_t)oA + (n-1)*(int_t)ldA + n > len(A)) err_buf_len("A");
     if (oB < 0) err_nn_int("offsetB");
-    if (oB + (nrhs-1)*ldB + n > len(B)) err_buf_len("B");
+    if ((int_t)oB + (nrhs-1)*(int_t)ldB + n > len(B)) err_buf_len("B");
 
     switch (MAT_ID(A)){
         case DOUBLE:
@@ -1817,7 +1817,7 @@ static PyObject* pbtrf(PyObject *self, PyObject *args, PyObject *kwrds)
     if (ldA == 0) ldA = MAX(1, A->nrows);
     if (ldA < kd+1) err_ld("ldA");
     if (oA < 0) err_nn_int("offsetA");
-    if (oA + (n-1)*ldA + kd + 1 > len(A)) err_buf_len("A");
+    if ((int_t)oA + (n-1)*(int_t)ldA + kd + 1 > len(A)) err_buf_len("A");
 
     switch (MAT_ID(A)){
         case DOUBLE:
@@ -1906,9 +1906,9 @@ static PyObject* pbtrs(PyObject *self, PyObject *args, PyObject *kwrds)
     if (ldB == 0) ldB = MAX(1,B->nrows);
     if (ldB < MAX(1,n)) err_ld("ldB");
     if (oA < 0) err_nn_int("offsetA");
-    if (oA + (n-1)*ldA + kd + 1 > len(A)) err_buf_len("A");
+    if ((int_t)oA + (n-1)*(int_t)ldA + kd + 1 > len(A)) err_buf_len("A");
     if (oB < 0) err_nn_int("offsetB");
-    if (oB + (nrhs-1)*ldB + n > len(B)) err_buf_len("B");
+    if ((int_t)oB + (nrhs-1)*(int_t)ldB + n > len(B)) err_buf_len("B");
 
     switch (MAT_ID(A)){
         case DOUBLE:
@@ -2000,9 +2000,9 @@ static PyObject* pbsv(PyObject *self, PyObject *args, PyObject *kwrds)
     if (ldB == 0) ldB = MAX(1,B->nrows);
     if (ldB < MAX(1,n)) err_ld("ldB");
     if (oA < 0) err_nn_int("offsetA");
-    if (oA + (n-1)*ldA + kd + 1 > len(A)) err_buf_len("A");
+    if ((int_t)oA + (n-1)*(int_t)ldA + kd + 1 > len(A)) err_buf_len("A");
     if (oB < 0) err_nn_int("offsetB");
-    if (oB + (nrhs-1)*ldB + n > len(B)) err_buf_len("B");
+    if ((int_t)oB + (nrhs-1)*(int_t)ldB + n > len(B)) err_buf_len("B");
 
     switch (MAT_ID(A)){
         case DOUBLE:
@@ -2060,10 +2060,10 @@ static PyObject* pttrf(PyObject *self, PyObject *args, PyObject *kwrds)
     if (od < 0) err_nn_int("offsetd");
     if (n < 0) n = len(d) - od;
     if (n < 0) err_buf_len("d");
-    if (od + n > len(d)) err_buf_len("d");
+    if ((int_t)od + n > len(d)) err_buf_len("d");
     if (n == 0) return Py_BuildValue("");
     if (oe < 0) err_nn_int("offsete");
-    if (oe + n - 1  > len(e)) err_buf_len("e");
+    if ((int_t)oe + n - 1  > len(e)) err_buf_len("e");
 
     switch (MAT_ID(e)){
         case DOUBLE:
@@ -2148,15 +2148,15 @@ static PyObject* pttrs(PyObject *self, PyObject *args, PyObject *kwrds)
     if (od < 0) err_nn_int("offsetd");
     if (n < 0) n = len(d) - od;
     if (n < 0) err_buf_len("d");
-    if (od + n > len(d)) err_buf_len("d");
+    if ((int_t)od + n > len(d)) err_buf_len("d");
     if (nrhs < 0) nrhs = B->ncols;
     if (n == 0 || nrhs == 0) return Py_BuildValue("");
     if (oe < 0) err_nn_int("offsete");
-    if (oe + n - 1  > len(e)) err_buf_len("e");
+    if ((int_t)oe + n - 1  > len(e)) err_buf_len("e");
     if (oB < 0) err_nn_int("offsetB");
     if (ldB == 0) ldB = MAX(1,B->nrows);
     if (ldB < MAX(1, n)) err_ld("ldB");
-    if (oB + (nrhs-1)*ldB + n > len(B)) err_buf_len("B");
+    if ((int_t)oB + (nrhs-1)*(int_t)ldB + n > len(B)) err_buf_len("B");
 
     switch (MAT_ID(e)){
         case DOUBLE:
@@ -2226,15 +2226,15 @@ static PyObject* ptsv(PyObject *self, PyObject *args, PyObject *kwrds)
     if (od < 0) err_nn_int("offsetd");
     if (n < 0) n = len(d) - od;
     if (n < 0) err_buf_len("d");
-    if (od + n > len(d)) err_buf_len("d");
+    if ((int_t)od + n > len(d)) err_buf_len("d");
     if (nrhs < 0) nrhs = B->ncols;
     if (n == 0 || nrhs == 0) return Py_BuildValue("");
     if (oe < 0) err_nn_int("offsete");
-    if (oe + n - 1  > len(e)) err_buf_len("e");
+    if ((int_t)oe + n - 1  > len(e)) err_buf_len("e");
     if (oB < 0) err_nn_int("offsetB");
     if (ldB == 0) ldB = MAX(1,B->nrows);
     if (ldB < MAX(1, n)) err_ld("ldB");
-    if (oB + (nrhs-1)*ldB + n > len(B)) err_buf_len("B");
+    if ((int_t)oB + (nrhs-1)*(int_t)ldB + n > len(B)) err_buf_len("B");
 
     switch (MAT_ID(e)){
         case DOUBLE:
@@ -2314,7 +2314,7 @@ static PyObject* sytrf(PyObject *self, PyObject *args, PyObject *kwrds)
     if (ldA == 0) ldA = MAX(1,A->nrows);
     if (ldA < MAX(1,n)) err_ld("ldA");
     if (oA < 0) err_nn_int("offsetA");
-    if (oA + (n-1)*ldA + n > len(A)) err_buf_len("A");
+    if ((int_t)oA + (n-1)*(int_t)ldA + n > len(A)) err_buf_len("A");
     if (len(ipiv) < n) err_buf_len("ipiv");
 
 #if (SIZEOF_INT < SIZEOF_SIZE_T)
@@ -2434,7 +2434,7 @@ static PyObject* hetrf(PyObject *self, PyObject *args, PyObject *kwrds)
     if (ldA == 0) ldA = MAX(1,A->nrows);
     if (ldA < MAX(1,n)) err_ld("ldA");
     if (oA < 0) err_nn_int("offsetA");
-    if (oA + (n-1)*ldA + n > len(A)) err_buf_len("A");
+    if ((int_t)oA + (n-1)*(int_t)ldA + n > len(A)) err_buf_len("A");
     if (len(ipiv) < n) err_buf_len("ipiv");
 
 #if (SIZEOF_INT < SIZEOF_SIZE_T)
@@ -2567,9 +2567,9 @@ static PyObject* sytrs(PyObject *self, PyObject *args, PyObject *kwrds)
     if (ldB == 0) ldB = MAX(1,B->nrows);
     if (ldB < MAX(1,n)) err_ld("ldB");
     if (oA < 0) err_nn_int("offsetA");
-    if (oA + (n-1)*ldA + n > len(A)) err_buf_len("A");
+    if ((int_t)oA + (n-1)*(int_t)ldA + n > len(A)) err_buf_len("A");
     if (oB < 0) err_nn_int("offsetB");
-    if (oB + (nrhs-1)*ldB + n > len(B)) err_buf_len("B");
+    if ((int_t)oB + (nrhs-1)*(int_t)ldB + n > len(B)) err_buf_len("B");
     if (len(ipiv) < n) err_buf_len("ipiv");
 
 #if (SIZEOF_INT < SIZEOF_SIZE_T)
@@ -2679,9 +2679,9 @@ static PyObject* hetrs(PyObject *self, PyObject *args, PyObject *kwrds)
     if (ldB == 0) ldB = MAX(1,B->nrows);
     if (ldB < MAX(1,n)) err_ld("ldB");
     if (oA < 0) err_nn_int("offsetA");
-    if (oA + (n-1)*ldA + n > len(A)) err_buf_len("A");
+    if ((int_t)oA + (n-1)*(int_t)ldA + n > len(A)) err_buf_len("A");
     if (oB < 0) err_nn_int("offsetB");
-    if (oB + (nrhs-1)*ldB + n > len(B)) err_buf_len("B");
+    if ((int_t)oB + (nrhs-1)*(int_t)ldB + n > len(B)) err_buf_len("B");
     if (len(ipiv) < n) err_buf_len("ipiv");
 
 #if (SIZEOF_INT < SIZEOF_SIZE_T)
@@ -2777,7 +2777,7 @@ static PyObject* sytri(PyObject *self, PyObject *args, PyObject *kwrds)
     if (ldA == 0) ldA = MAX(1,A->nrows);
     if (ldA < MAX(1,n)) err_ld("ldA");
     if (oA < 0) err_nn_int("offsetA");
-    if (oA + (n-1)*ldA + n > len(A)) err_buf_len("A");
+    if ((int_t)oA + (n-1)*(int_t)ldA + n > len(A)) err_buf_len("A");
     if (len(ipiv) < n) err_buf_len("ipiv");
 
 #if (SIZEOF_INT < SIZEOF_SIZE_T)
@@ -2887,7 +2887,7 @@ static PyObject* hetri(PyObject *self, PyObject *args, PyObject *kwrds)
     if (ldA == 0) ldA = MAX(1,A->nrows);
     if (ldA < MAX(1,n)) err_ld("ldA");
     if (oA < 0) err_nn_int("offsetA");
-    if (oA + (n-1)*ldA + n > len(A)) err_buf_len("A");
+    if ((int_t)oA + (n-1)*(int_t)ldA + n > len(A)) err_buf_len("A");
     if (len(ipiv) < n) err_buf_len("ipiv");
 
 #if (SIZEOF_INT < SIZEOF_SIZE_T)
@@ -3014,9 +3014,9 @@ static PyObject* sysv(PyObject *self, PyObject *args, PyObject *kwrds)
     if (ldB == 0) ldB = MAX(1,B->nrows);
     if (ldB < MAX(1, n)) err_ld("ldB");
     if (oA < 0) err_nn_int("offsetA");
-    if (oA + (n-1)*ldA + n > len(A)) err_buf_len("A");
+    if ((int_t)oA + (n-1)*(int_t)ldA + n > len(A)) err_buf_len("A");
     if (oB < 0) err_nn_int("offsetB");
-    if (oB + (nrhs-1)*ldB + n > len(B)) err_buf_len("B");
+    if ((int_t)oB + (nrhs-1)*(int_t)ldB + n > len(B)) err_buf_len("B");
     if (ipiv && len(ipiv) < n) err_buf_len("ipiv");
 
     switch (MAT_ID(A)){
@@ -3056,7 +3056,7 @@ static PyObject* sysv(PyObject *self, PyObject *args, PyObject *kwrds)
                     return PyErr_NoMemory();
                 }
                 for (k=0; k<n; k++)
-                    memcpy((double *) Ac + k*n, MAT_BUFD(A) + oA + k*ldA,
+                    memcpy((double *) Ac + k*n, MAT_BUFD(A) + oA + k*(int_t)ldA,
                         n*sizeof(double));
                 Py_BEGIN_ALLOW_THREADS
                 dsysv_(&uplo, &n, &nrhs, (double *) Ac, &n, ipivc,
@@ -3104,7 +3104,7 @@ static PyObject* sysv(PyObject *self, PyObject *args, PyObject *kwrds)
                 }
                 for (k=0; k<n; k++)
                     memcpy((complex_t *) Ac + k*n, 
-                        MAT_BUFZ(A) + oA + k*ldA,
+                        MAT_BUFZ(A) + oA + k*(int_t)ldA,
                         n*sizeof(complex_t));
                 Py_BEGIN_ALLOW_THREADS
                 zsysv_(&uplo, &n, &nrhs, (complex_t *) Ac, &n, ipivc,
@@ -3197,9 +3197,9 @@ static PyObject* hesv(PyObject *self, PyObject *args, PyObject *kwrds)
     if (ldB == 0) ldB = MAX(1,B->nrows);
     if (ldB < MAX(1, n)) err_ld("ldB");
     if (oA < 0) err_nn_int("offsetA");
-    if (oA + (n-1)*ldA + n > len(A)) err_buf_len("A");
+    if ((int_t)oA + (n-1)*(int_t)ldA + n > len(A)) err_buf_len("A");
     if (oB < 0) err_nn_int("offsetB");
-    if (oB + (nrhs-1)*ldB + n > len(B)) err_buf_len("B");
+    if ((int_t)oB + (nrhs-1)*(int_t)ldB + n > len(B)) err_buf_len("B");
     if (ipiv && len(ipiv) < n) err_buf_len("ipiv");
 
     switch (MAT_ID(A)){
@@ -3239,7 +3239,7 @@ static PyObject* hesv(PyObject *self, PyObject *args, PyObject *kwrds)
                     return PyErr_NoMemory();
                 }
                 for (k=0; k<n; k++)
-                    memcpy((double *) Ac + k*n, MAT_BUFD(A) + oA + k*ldA,
+                    memcpy((double *) Ac + k*n, MAT_BUFD(A) + oA + k*(int_t)ldA,
                         n*sizeof(double));
                 Py_BEGIN_ALLOW_THREADS
                 dsysv_(&uplo, &n, &nrhs, (double *) Ac, &n, ipivc,
@@ -3285,7 +3285,7 @@ static PyObject* hesv(PyObject *self, PyObject *args, PyObject *kwrds)
                 }
                 for (k=0; k<n; k++)
                     memcpy((complex_t *) Ac + k*n, 
-                        MAT_BUFZ(A) + oA + k*ldA,
+                        MAT_BUFZ(A) + oA + k*(int_t)ldA,
                         n*sizeof(complex_t));
                 Py_BEGIN_ALLOW_THREADS
                 zhesv_(&uplo, &n, &nrhs, (complex_t *) Ac, &n, ipivc,
@@ -3378,9 +3378,9 @@ static PyObject* trtrs(PyObject *self, PyObject *args, PyObject *kwrds)
     if (ldB == 0) ldB = MAX(1,B->nrows);
     if (ldB < MAX(1,n)) err_ld("ldB");
     if (oA < 0) err_nn_int("offsetA");
-    if (oA + (n-1)*ldA + n > len(A)) err_buf_len("A");
+    if ((int_t)oA + (n-1)*(int_t)ldA + n > len(A)) err_buf_len("A");
     if (oB < 0) err_nn_int("offsetB");
-    if (oB + (nrhs-1)*ldB + n > len(B)) err_buf_len("B");
+    if ((int_t)oB + (nrhs-1)*(int_t)ldB + n > len(B)) err_buf_len("B");
 
     switch (MAT_ID(A)){
         case DOUBLE:
@@ -3458,7 +3458,7 @@ static PyObject* trtri(PyObject *self, PyObject *args, PyObject *kwrds)
     if (ldA == 0) ldA = MAX(1,A->nrows);
     if (ldA < MAX(1,n)) err_ld("ldA");
     if (oA < 0) err_nn_int("offsetA");
-    if (oA + (n-1)*ldA + n > len(A)) err_buf_len("A");
+    if ((int_t)oA + (n-1)*(int_t)ldA + n > len(A)) err_buf_len("A");
 
     switch (MAT_ID(A)){
         case DOUBLE:
@@ -3556,9 +3556,9 @@ static PyObject* tbtrs(PyObject *self, PyObject *args, PyObject *kwrds)
     if (ldB == 0) ldB = MAX(1,B->nrows);
     if (ldB < MAX(1,n)) err_ld("ldB");
     if (oA < 0) err_nn_int("offsetA");
-    if (oA + (n-1)*ldA + kd + 1 > len(A)) err_buf_len("A");
+    if ((int_t)oA + (n-1)*(int_t)ldA + kd + 1 > len(A)) err_buf_len("A");
     if (oB < 0) err_nn_int("offsetB");
-    if (oB + (nrhs-1)*ldB + n > len(B)) err_buf_len("B");
+    if ((int_t)oB + (nrhs-1)*(int_t)ldB + n > len(B)) err_buf_len("B");
 
     switch (MAT_ID(A)){
         case DOUBLE:
@@ -3658,9 +3658,9 @@ static PyObject* gels(PyObject *self, PyObject *args, PyObject *kwrds)
     if (ldB == 0) ldB = MAX(1,B->nrows);
     if (ldB < MAX(MAX(1,n),m)) err_ld("ldB");
     if (oA < 0) err_nn_int("offsetA");
-    if (oA + (n-1)*ldA + m > len(A)) err_buf_len("A");
+    if ((int_t)oA + (n-1)*(int_t)ldA + m > len(A)) err_buf_len("A");
     if (oB < 0) err_nn_int("offsetB");
-    if (oB + (nrhs-1)*ldB + ((trans == 'N') ? n : m) > len(B))
+    if ((int_t)oB + (nrhs-1)*(int_t)ldB + ((trans == 'N') ? n : m) > len(B))
         err_buf_len("B");
 
     switch (MAT_ID(A)){
@@ -3753,7 +3753,7 @@ static PyObject* geqrf(PyObject *self, PyObject *args, PyObject *kwrds)
     if (ldA == 0) ldA = MAX(1,A->nrows);
     if (ldA < MAX(1,m)) err_ld("ldA");
     if (oA < 0) err_nn_int("offsetA");
-    if (oA + (n-1)*ldA + m > len(A)) err_buf_len("A");
+    if ((int_t)oA + (n-1)*(int_t)ldA + m > len(A)) err_buf_len("A");
     if (len(tau) < MIN(m,n)) err_buf_len("tau");
 
     switch (MAT_ID(A)){
@@ -3873,9 +3873,9 @@ static PyObject* ormqr(PyObject *self, PyObject *args, PyObject *kwrds)
     if (ldC == 0) ldC = MAX(1,C->nrows);
     if (ldC < MAX(1,m)) err_ld("ldC");
     if (oA < 0) err_nn_int("offsetA");
-    if (oA + k*ldA  > len(A)) err_buf_len("A");
+    if ((int_t)oA + k*(int_t)ldA  > len(A)) err_buf_len("A");
     if (oC < 0) err_nn_int("offsetC");
-    if (oC + (n-1)*ldC + m > len(C)) err_buf_len("C");
+    if ((int_t)oC + (n-1)*(int_t)ldC + m > len(C)) err_buf_len("C");
     if (len(tau) < k) err_buf_len("tau");
 
     switch (MAT_ID(A)){
@@ -3986,9 +3986,9 @@ static PyObject* unmqr(PyObject *self, PyObject *args, PyObject *kwrds)
     if (ldC == 0) ldC = MAX(1,C->nrows);
     if (ldC < MAX(1,m)) err_ld("ldC");
     if (oA < 0) err_nn_int("offsetA");
-    if (oA + k*ldA > len(A)) err_buf_len("A");
+    if ((int_t)oA + k*(int_t)ldA > len(A)) err_buf_len("A");
     if (oC < 0) err_nn_int("offsetC");
-    if (oC + (n-1)*ldC + m > len(C)) err_buf_len("C");
+    if ((int_t)oC + (n-1)*(int_t)ldC + m > len(C)) err_buf_len("C");
     if (len(tau) < k) err_buf_len("tau");
 
     switch (MAT_ID(A)){
@@ -4081,7 +4081,7 @@ static PyObject* orgqr(PyObject *self, PyObject *args, PyObject *kwrds)
     if (ldA == 0) ldA = MAX(1, A->nrows);
     if (ldA <  MAX(1, m)) err_ld("ldA");
     if (oA < 0) err_nn_int("offsetA");
-    if (oA + n*ldA  > len(A)) err_buf_len("A");
+    if ((int_t)oA + n*(int_t)ldA  > len(A)) err_buf_len("A");
     if (len(tau) < k) err_buf_len("tau");
 
     switch (MAT_ID(A)){
@@ -4154,7 +4154,7 @@ static PyObject* ungqr(PyObject *self, PyObject *args, PyObject *kwrds)
     if (ldA == 0) ldA = MAX(1, A->nrows);
     if (ldA <  MAX(1, m)) err_ld("ldA");
     if (oA < 0) err_nn_int("offsetA");
-    if (oA + n*ldA  > len(A)) err_buf_len("A");
+    if ((int_t)oA + n*(int_t)ldA  > len(A)) err_buf_len("A");
     if (len(tau) < k) err_buf_len("tau");
 
     switch (MAT_ID(A)){
@@ -4242,7 +4242,7 @@ static PyObject* gelqf(PyObject *self, PyObject *args, PyObject *kwrds)
     if (ldA == 0) ldA = MAX(1,A->nrows);
     if (ldA < MAX(1,m)) err_ld("ldA");
     if (oA < 0) err_nn_int("offsetA");
-    if (oA + (n-1)*ldA + m > len(A)) err_buf_len("A");
+    if ((int_t)oA + (n-1)*(int_t)ldA + m > len(A)) err_buf_len("A");
     if (len(tau) < MIN(m,n)) err_buf_len("tau");
 
     switch (MAT_ID(A)){
@@ -4361,9 +4361,9 @@ static PyObject* ormlq(PyObject *self, PyObject *args, PyObject *kwrds)
     if (ldC == 0) ldC = MAX(1,C->nrows);
     if (ldC < MAX(1,m)) err_ld("ldC");
     if (oA < 0) err_nn_int("offsetA");
-    if (oA + ldA * ((side == 'L') ? m : n) > len(A)) err_buf_len("A");
+    if ((int_t)oA + ldA * ((side == 'L') ? m : n) > len(A)) err_buf_len("A");
     if (oC < 0) err_nn_int("offsetC");
-    if (oC + (n-1)*ldC + m > len(C)) err_buf_len("C");
+    if ((int_t)oC + (n-1)*(int_t)ldC + m > len(C)) err_buf_len("C");
     if (len(tau) < k) err_buf_len("tau");
 
     switch (MAT_ID(A)){
@@ -4473,9 +4473,9 @@ static PyObject* unmlq(PyObject *self, PyObject *args, PyObject *kwrds)
     if (ldC == 0) ldC = MAX(1,C->nrows);
     if (ldC < MAX(1,m)) err_ld("ldC");
     if (oA < 0) err_nn_int("offsetA");
-    if (oA + ldA * ((side == 'L') ? m : n) > len(A)) err_buf_len("A");
+    if ((int_t)oA + ldA * ((side == 'L') ? m : n) > len(A)) err_buf_len("A");
     if (oC < 0) err_nn_int("offsetC");
-    if (oC + (n-1)*ldC + m > len(C)) err_buf_len("C");
+    if ((int_t)oC + (n-1)*(int_t)ldC + m > len(C)) err_buf_len("C");
     if (len(tau) < k) err_buf_len("tau");
 
     switch (MAT_ID(A)){
@@ -4568,7 +4568,7 @@ static PyObject* orglq(PyObject *self, PyObject *args, PyObject *kwrds)
     if (ldA == 0) ldA = MAX(1, A->nrows);
     if (ldA <  MAX(1, m)) err_ld("ldA");
     if (oA < 0) err_nn_int("offsetA");
-    if (oA + n*ldA  > len(A)) err_buf_len("A");
+    if ((int_t)oA + n*(int_t)ldA  > len(A)) err_buf_len("A");
     if (len(tau) < k) err_buf_len("tau");
 
     switch (MAT_ID(A)){
@@ -4641,7 +4641,7 @@ static PyObject* unglq(PyObject *self, PyObject *args, PyObject *kwrds)
     if (ldA == 0) ldA = MAX(1, A->nrows);
     if (ldA <  MAX(1, m)) err_ld("ldA");
     if (oA < 0) err_nn_int("offsetA");
-    if (oA + n*ldA  > len(A)) err_buf_len("A");
+    if ((int_t)oA + n*(int_t)ldA  > len(A)) err_buf_len("A");
     if (len(tau) < k) err_buf_len("tau");
 
     switch (MAT_ID(A)){
@@ -4737,7 +4737,7 @@ static PyObject* geqp3(PyObject *self, PyObject *args, PyObject *kwrds)
     if (ldA == 0) ldA = MAX(1, A->nrows);
     if (ldA < MAX(1,m)) err_ld("ldA");
     if (oA < 0) err_nn_int("offsetA");
-    if (oA + (n-1)*ldA + m > len(A)) err_buf_len("A");
+    if ((int_t)oA + (n-1)*(int_t)ldA + m > len(A)) err_buf_len("A");
     if (len(jpvt) < n) err_buf_len("jpvt");
     if (len(tau) < MIN(m,n)) err_buf_len("tau");
 
@@ -4864,9 +4864,9 @@ static PyObject* syev(PyObject *self, PyObject *args, PyObject *kwrds)
     if (ldA == 0) ldA = MAX(1,A->nrows);
     if (ldA < MAX(1,n)) err_ld("ldA");
     if (oA < 0) err_nn_int("offsetA");
-    if (oA + (n-1)*ldA + n > len(A)) err_buf_len("A");
+    if ((int_t)oA + (n-1)*(int_t)ldA + n > len(A)) err_buf_len("A");
     if (oW < 0) err_nn_int("offsetW");
-    if (oW + n > len(W)) err_buf_len("W");
+    if ((int_t)oW + n > len(W)) err_buf_len("W");
 
     switch (MAT_ID(A)){
 	case DOUBLE:
@@ -4958,9 +4958,9 @@ static PyObject* heev(PyObject *self, PyObject *args, PyObject *kwrds)
     if (ldA == 0) ldA = MAX(1,A->nrows);
     if (ldA < MAX(1,n)) err_ld("ldA");
     if (oA < 0) err_nn_int("offsetA");
-    if (oA + (n-1)*ldA + n > len(A)) err_buf_len("A");
+    if ((int_t)oA + (n-1)*(int_t)ldA + n > len(A)) err_buf_len("A");
     if (oW < 0) err_nn_int("offsetW");
-    if (oW + n > len(W)) err_buf_len("W");
+    if ((int_t)oW + n > len(W)) err_buf_len("W");
     switch (MAT_ID(A)){
 	case DOUBLE:
 	    lwork=-1;
@@ -5110,16 +5110,16 @@ static PyObject* syevx(PyObject *self, PyObject *args, PyObject *kwrds)
         return NULL;
     }
     if (oA < 0) err_nn_int("offsetA");
-    if (oA + (n-1)*ldA + n > len(A)) err_buf_len("A");
+    if ((int_t)oA + (n-1)*(int_t)ldA + n > len(A)) err_buf_len("A");
     if (oW < 0) err_nn_int("offsetW");
-    if (oW + n > len(W)) err_buf_len("W");
+    if ((int_t)oW + n > len(W)) err_buf_len("W");
     if (jobz == 'V'){
         if (!Z || !Matrix_Check(Z) || MAT_ID(Z) != DOUBLE)
             err_dbl_mtrx("Z");
         if (ldZ == 0) ldZ = MAX(1,Z->nrows);
         if (ldZ < MAX(1,n)) err_ld("ldZ");
         if (oZ < 0) err_nn_int("offsetZ");
-        if (oZ + ((range == 'I') ? iu-il : n-1)*ldZ + n > len(Z))
+        if ((int_t)oZ + ((range == 'I') ? iu-il : n-1)*(int_t)ldZ + n > len(Z))
 	    err_buf_len("Z");
     } else {
         if (ldZ == 0) ldZ = 1;
@@ -5264,16 +5264,16 @@ static PyObject* heevx(PyObject *self, PyObject *args, PyObject *kwrds)
         return NULL;
     }
     if (oA < 0) err_nn_int("offsetA");
-    if (oA + (n-1)*ldA + n > len(A)) err_buf_len("A");
+    if ((int_t)oA + (n-1)*(int_t)ldA + n > len(A)) err_buf_len("A");
     if (oW < 0) err_nn_int("offsetW");
-    if (oW + n > len(W)) err_buf_len("W");
+    if ((int_t)oW + n > len(W)) err_buf_len("W");
     if (jobz == 'V'){
         if (!Z || !Matrix_Check(Z)) err_mtrx("Z");
 	if (MAT_ID(Z) != MAT_ID(A)) err_conflicting_ids;
         if (ldZ == 0) ldZ = MAX(1,Z->nrows);
         if (ldZ < MAX(1,n)) err_ld("ldZ");
         if (oZ < 0) err_nn_int("offsetZ");
-        if (oZ + ((range == 'I') ? iu-il : n-1)*ldZ + n > len(Z))
+        if ((int_t)oZ + ((range == 'I') ? iu-il : n-1)*(int_t)ldZ + n > len(Z))
 	    err_buf_len("Z");
     } else {
         if (ldZ == 0) ldZ = 1;
@@ -5403,9 +5403,9 @@ static PyObject* syevd(PyObject *self, PyObject *args, PyObject *kwrds)
     if (ldA == 0) ldA = MAX(1,A->nrows);
     if (ldA < MAX(1,n)) err_ld("ldA");
     if (oA < 0) err_nn_int("offsetA");
-    if (oA + (n-1)*ldA + n > len(A)) err_buf_len("A");
+    if ((int_t)oA + (n-1)*(int_t)ldA + n > len(A)) err_buf_len("A");
     if (oW < 0) err_nn_int("offsetW");
-    if (oW + n > len(W)) err_buf_len("W");
+    if ((int_t)oW + n > len(W)) err_buf_len("W");
 
     switch (MAT_ID(A)){
         case DOUBLE:
@@ -5505,9 +5505,9 @@ static PyObject* heevd(PyObject *self, PyObject *args, PyObject *kwrds)
     if (ldA == 0) ldA = MAX(1,A->nrows);
     if (ldA < MAX(1,n)) err_ld("ldA");
     if (oA < 0) err_nn_int("offsetA");
-    if (oA + (n-1)*ldA + n > len(A)) err_buf_len("A");
+    if ((int_t)oA + (n-1)*(int_t)ldA + n > len(A)) err_buf_len("A");
     if (oW < 0) err_nn_int("offsetW");
-    if (oW + n > len(W)) err_buf_len("W");
+    if ((int_t)oW + n > len(W)) err_buf_len("W");
 
     switch (MAT_ID(A)){
         case DOUBLE:
@@ -5681,12 +5681,12 @@ static PyObject* syevr(PyObject *self, PyObject *args, PyObject *kwrds)
         if (ldZ < 1) err_ld("ldZ");
     }
     if (oA < 0) err_nn_int("offsetA");
-    if (oA + (n-1)*ldA + n > len(A)) err_buf_len("A");
+    if ((int_t)oA + (n-1)*(int_t)ldA + n > len(A)) err_buf_len("A");
     if (oW < 0) err_nn_int("offsetW");
-    if (oW + n > len(W)) err_buf_len("W");
+    if ((int_t)oW + n > len(W)) err_buf_len("W");
     if (jobz == 'V'){
         if (oZ < 0) err_nn_int("offsetZ");
-        if (oZ + ((range == 'I') ? iu-il : n-1)*ldZ + n > len(Z))
+        if ((int_t)oZ + ((range == 'I') ? iu-il : n-1)*(int_t)ldZ + n > len(Z))
 	    err_buf_len("Z");
     }
 
@@ -5843,12 +5843,12 @@ static PyObject* heevr(PyObject *self, PyObject *args, PyObject *kwrds)
         if (ldZ < 1) err_ld("ldZ");
     }
     if (oA < 0) err_nn_int("offsetA");
-    if (oA + (n-1)*ldA + n > len(A)) err_buf_len("A");
+    if ((int_t)oA + (n-1)*(int_t)ldA + n > len(A)) err_buf_len("A");
     if (oW < 0) err_nn_int("offsetW");
-    if (oW + n > len(W)) err_buf_len("W");
+    if ((int_t)oW + n > len(W)) err_buf_len("W");
     if (jobz == 'V'){
         if (oZ < 0) err_nn_int("offsetZ");
-        if (oZ + ((range == 'I') ? iu-il : n-1)*ldZ + n > len(Z))
+        if ((int_t)oZ + ((range == 'I') ? iu-il : n-1)*(int_t)ldZ + n > len(Z))
 	    err_buf_len("Z");
     }
 
@@ -6013,11 +6013,11 @@ static PyObject* sygv(PyObject *self, PyObject *args, PyObject *kwrds)
     if (ldB == 0) ldB = MAX(1,B->nrows);
     if (ldB < MAX(1,n)) err_ld("ldB");
     if (oA < 0) err_nn_int("offsetA");
-    if (oA + (n-1)*ldA + n > len(A)) err_buf_len("A");
+    if ((int_t)oA + (n-1)*(int_t)ldA + n > len(A)) err_buf_len("A");
     if (oB < 0) err_nn_int("offsetB");
-    if (oB + (n-1)*ldB + n > len(B)) err_buf_len("B");
+    if ((int_t)oB + (n-1)*(int_t)ldB + n > len(B)) err_buf_len("B");
     if (oW < 0) err_nn_int("offsetW");
-    if (oW + n > len(W)) err_buf_len("W");
+    if ((int_t)oW + n > len(W)) err_buf_len("W");
 
     switch (MAT_ID(A)){
 	case DOUBLE:
@@ -6140,11 +6140,11 @@ static PyObject* hegv(PyObject *self, PyObject *args, PyObject *kwrds)
     if (ldB == 0) ldB = MAX(1,B->nrows);
     if (ldB < MAX(1,n)) err_ld("ldB");
     if (oA < 0) err_nn_int("offsetA");
-    if (oA + (n-1)*ldA + n > len(A)) err_buf_len("A");
+    if ((int_t)oA + (n-1)*(int_t)ldA + n > len(A)) err_buf_len("A");
     if (oB < 0) err_nn_int("offsetB");
-    if (oB + (n-1)*ldB + n > len(B)) err_buf_len("B");
+    if ((int_t)oB + (n-1)*(int_t)ldB + n > len(B)) err_buf_len("B");
     if (oW < 0) err_nn_int("offsetW");
-    if (oW + n > len(W)) err_buf_len("W");
+    if ((int_t)oW + n > len(W)) err_buf_len("W");
 
     switch (MAT_ID(A)){
         case DOUBLE:
@@ -6339,17 +6339,17 @@ static PyObject* gesvd(PyObject *self, PyObject *args, PyObject *kwrds)
         if (ldVt < 1) err_ld("ldVt");
     }
     if (oA < 0) err_nn_int("offsetA");
-    if (oA + (n-1)*ldA + m > len(A)) err_buf_len("A");
+    if ((int_t)oA + (n-1)*(int_t)ldA + m > len(A)) err_buf_len("A");
     if (oS < 0) err_nn_int("offsetS");
-    if (oS + MIN(m,n) > len(S)) err_buf_len("S");
+    if ((int_t)oS + MIN(m,n) > len(S)) err_buf_len("S");
     if (jobu == 'A' || jobu == 'S'){
         if (oU < 0) err_nn_int("offsetU");
-        if (oU + ((jobu == 'A') ? m-1 : MIN(m,n)-1)*ldU + m > len(U))
+        if ((int_t)oU + ((jobu == 'A') ? m-1 : MIN(m,n)-1)*(int_t)ldU + m > len(U))
             err_buf_len("U");
     }
     if (jobvt == 'A' || jobvt == 'S'){
         if (oVt < 0) err_nn_int("offsetVt");
-        if (oVt + (n-1)*ldVt + ((jobvt == 'A') ? n : MIN(m,n)) >
+        if ((int_t)oVt + (n-1)*(int_t)ldVt + ((jobvt == 'A') ? n : MIN(m,n)) >
             len(Vt)) err_buf_len("Vt");
     }
 
@@ -6532,18 +6532,18 @@ static PyObject* gesdd(PyObject *self, PyObject *args, PyObject *kwrds)
         if (ldVt < 1) err_ld("ldVt");
     }
     if (oA < 0) err_nn_int("offsetA");
-    if (oA + (n-1)*ldA + m > len(A)) err_buf_len("A");
+    if ((int_t)oA + (n-1)*(int_t)ldA + m > len(A)) err_buf_len("A");
     if (oS < 0) err_nn_int("offsetS");
-    if (oS + MIN(m,n) > len(S)) err_buf_len("S");
+    if ((int_t)oS + MIN(m,n) > len(S)) err_buf_len("S");
     if (jobz == 'A' || jobz == 'S' || (jobz == 'O' && m<n)){
         if (oU < 0) err_nn_int("offsetU");
-        if (oU + ((jobz == 'A' || jobz == 'O') ? m-1 : MIN(m,n)-1)*ldU
+        if ((int_t)oU + ((jobz == 'A' || jobz == 'O') ? m-1 : MIN(m,n)-1)*(int_t)ldU
             + m > len(U))
 	    err_buf_len("U");
     }
     if (jobz == 'A' || jobz == 'S' || (jobz == 'O' && m>=n)){
         if (oVt < 0) err_nn_int("offsetVt");
-        if (oVt + (n-1)*ldVt + ((jobz == 'A' || jobz == 'O') ? n :
+        if ((int_t)oVt + (n-1)*(int_t)ldVt + ((jobz == 'A' || jobz == 'O') ? n :
             MIN(m,n)) > len(Vt)) err_buf_len("Vt");
     }
 
@@ -6720,13 +6720,13 @@ static PyObject* gees(PyObject *self, PyObject *args, PyObject *kwrds)
     if (ldA == 0) ldA = MAX(1,A->nrows);
     if (ldA < MAX(1,n)) err_ld("ldA");
     if (oA < 0) err_nn_int("offsetA");
-    if (oA + (n-1)*ldA + n > len(A)) err_buf_len("A");
+    if ((int_t)oA + (n-1)*(int_t)ldA + n > len(A)) err_buf_len("A");
 
     if (W){
         if (!Matrix_Check(W) || MAT_ID(W) != COMPLEX)
             PY_ERR_TYPE("W must be a matrix with typecode 'z'")
         if (oW < 0) err_nn_int("offsetW");
-        if (oW + n > len(W)) err_buf_len("W");
+        if ((int_t)oW + n > len(W)) err_buf_len("W");
     }
 
     if (Vs){
@@ -6735,7 +6735,7 @@ static PyObject* gees(PyObject *self, PyObject *args, PyObject *kwrds)
         if (ldVs == 0) ldVs = MAX(1, Vs->nrows);
         if (ldVs < MAX(1,n)) err_ld("ldVs");
         if (oVs < 0) err_nn_int("offsetVs");
-        if (oVs + (n-1)*ldVs + n > len(Vs)) err_buf_len("Vs");
+        if ((int_t)oVs + (n-1)*(int_t)ldVs + n > len(Vs)) err_buf_len("Vs");
     } else {
         if (ldVs == 0) ldVs = 1;
         if (ldVs < 1) err_ld("ldVs");
@@ -6953,17 +6953,17 @@ static PyObject* gges(PyObject *self, PyObject *args, PyObject *kwrds)
     if (ldA == 0) ldA = MAX(1,A->nrows);
     if (ldA < MAX(1,n)) err_ld("ldA");
     if (oA < 0) err_nn_int("offsetA");
-    if (oA + (n-1)*ldA + n > len(A)) err_buf_len("A");
+    if ((int_t)oA + (n-1)*(int_t)ldA + n > len(A)) err_buf_len("A");
     if (ldB == 0) ldB = MAX(1, B->nrows);
     if (ldB < MAX(1,n)) err_ld("ldB");
     if (oB < 0) err_nn_int("offsetB");
-    if (oB + (n-1)*ldB + n > len(B)) err_buf_len("B");
+    if ((int_t)oB + (n-1)*(int_t)ldB + n > len(B)) err_buf_len("B");
 
     if (a){
         if (!Matrix_Check(a) || MAT_ID(a) != COMPLEX)
             PY_ERR_TYPE("a must be a matrix with typecode 'z'")
         if (oa < 0) err_nn_int("offseta");
-        if (oa + n > len(a)) err_buf_len("a");
+        if ((int_t)oa + n > len(a)) err_buf_len("a");
         if (!b){
             PyErr_SetString(PyExc_ValueError, "'b' must be provided if "
                 "'a' is provided");
@@ -6974,7 +6974,7 @@ static PyObject* gges(PyObject *self, PyObject *args, PyObject *kwrds)
         if (!Matrix_Check(b) || MAT_ID(b) != DOUBLE)
             PY_ERR_TYPE("b must be a matrix with typecode 'd'")
         if (ob < 0) err_nn_int("offsetb");
-        if (ob + n > len(b)) err_buf_len("b");
+        if ((int_t)ob + n > len(b)) err_buf_len("b");
         if (!a){
             PyErr_SetString(PyExc_ValueError, "'a' must be provided if "
                 "'b' is provided");
@@ -6988,7 +6988,7 @@ static PyObject* gges(PyObject *self, PyObject *args, PyObject *kwrds)
         if (ldVsl == 0) ldVsl = MAX(1, Vsl->nrows);
         if (ldVsl < MAX(1,n)) err_ld("ldVsl");
         if (oVsl < 0) err_nn_int("offsetVsl");
-        if (oVsl + (n-1)*ldVsl + n > len(Vsl)) err_buf_len("Vsl");
+        if ((int_t)oVsl + (n-1)*(int_t)ldVsl + n > len(Vsl)) err_buf_len("Vsl");
     } else {
         if (ldVsl == 0) ldVsl = 1;
         if (ldVsl < 1) err_ld("ldVsl");
@@ -7000,7 +7000,7 @@ static PyObject* gges(PyObject *self, PyObject *args, PyObject *kwrds)
         if (ldVsr == 0) ldVsr = MAX(1, Vsr->nrows);
         if (ldVsr < MAX(1,n)) err_ld("ldVsr");
         if (oVsr < 0) err_nn_int("offsetVsr");
-        if (oVsr + (n-1)*ldVsr + n > len(Vsr)) err_buf_len("Vsr");
+        if ((int_t)oVsr + (n-1)*(int_t)ldVsr + n > len(Vsr)) err_buf_len("Vsr");
     } else {
         if (ldVsr == 0) ldVsr = 1;
         if (ldVsr < 1) err_ld("ldVsr");
@@ -7143,9 +7143,9 @@ static PyObject* lacpy(PyObject *self, PyObject *args, PyObject *kwrds)
     if (ldB == 0) ldB = MAX(1, B->nrows);
     if (ldB < MAX(1, m)) err_ld("ldB");
     if (oA < 0) err_nn_int("offsetA");
-    if (oA + (n-1)*ldA + m > len(A)) err_buf_len("A");
+    if ((int_t)oA + (n-1)*(int_t)ldA + m > len(A)) err_buf_len("A");
     if (oB < 0) err_nn_int("offsetB");
-    if (oB + (n-1)*ldB + m > len(B)) err_buf_len("B");
+    if ((int_t)oB + (n-1)*(int_t)ldB + m > len(B)) err_buf_len("B");
 
     switch (MAT_ID(A)){
         case DOUBLE:
@@ -7300,7 +7300,7 @@ static PyObject* larfx(PyObject *self, PyObject *args, PyObject *kwrds)
     if (ldC == 0) ldC = MAX(1, C->nrows);
     if (ldC < MAX(1,m)) err_ld("ldC");
     if (oC < 0) err_nn_int("offsetC");
-    if (oC + (n-1)*ldC + m > len(C)) err_buf_len("C");
+    if ((int_t)oC + (n-1)*(int_t)ldC + m > len(C)) err_buf_len("C");
 
 
     switch (MAT_ID(v)){
